@@ -1523,11 +1523,15 @@ class LiteralForms(ast.NodeTransformer):
     visit_AsyncFunctionDef = _function
 
     # first parameter of well-known external calls: given by keyword it is the positional one
-    FIRST_PARAM = {"DataFrame": "data", "Series": "data", "concat": "objs", "to_dict": "orient", "hstack": "tup", "vstack": "tup", "asarray": "a", "sort": "a", "argsort": "a", "unique": "ar", "zeros": "shape", "empty": "shape", "ones": "shape", "full": "shape"}
+    FIRST_PARAM = {"DataFrame": "data", "Series": "data", "concat": "objs", "to_dict": "orient", "hstack": "tup", "vstack": "tup", "asarray": "a", "sort": "a", "argsort": "a", "unique": "ar", "zeros": "shape", "empty": "shape", "ones": "shape", "full": "shape", "masked_array": "data", "MaskedArray": "data"}
 
     def visit_Call(self, node: ast.Call):
         self.generic_visit(node)
         tail = node.func.attr if isinstance(node.func, ast.Attribute) else (node.func.id if isinstance(node.func, ast.Name) else "")
+        if tail == "MaskedArray" and isinstance(node.func, ast.Attribute) and isinstance(node.func.value, (ast.Attribute, ast.Name)) and (node.func.value.attr if isinstance(node.func.value, ast.Attribute) else node.func.value.id) == "ma":
+            # numpy.ma.masked_array is numpy.ma.MaskedArray (one object, two names)
+            node.func.attr = "masked_array"
+            self.count += 1
         fp = self.FIRST_PARAM.get(tail)
         if fp is not None and not node.args and any(k.arg == fp for k in node.keywords):
             first = next(k for k in node.keywords if k.arg == fp)
